@@ -184,6 +184,55 @@ def build_ops():
     add('ode.adaptive_step_size(trapezoidal)', 2, en_ax('gen'),
         lambda s, A, x: ode.adaptive_step_size(A, x, x, 0.3, step_size_first=0.1, second_method='trapezoidal_rule', progress=False),
         base='ode.adaptive_step_size')
+    # ---- data-driven routines and model builders: arguments are harness-held NumPy arrays (I4) and/or pool objects
+    import scikit_tt.data_driven.transform as tdt
+    import scikit_tt.data_driven.regression as reg
+    import scikit_tt.data_driven.tdmd as tdmd
+    import scikit_tt.data_driven.tedmd as tedmd
+    import scikit_tt.data_driven.tgedmd as tgedmd
+    import scikit_tt.data_driven.ulam as ulam
+    import scikit_tt.slim as slim
+
+    def has(*keys):
+        return lambda s, *a: all(k in s.env for k in keys)
+
+    def basis(s):
+        return [[tdt.ConstantFunction(0), tdt.Identity(0), tdt.Monomial(0, 2)], [tdt.Sin(1 % s.env['x'].shape[0], 1.0), tdt.Cos(1 % s.env['x'].shape[0], 0.5)]]
+    phi = [lambda t: 1.0, lambda t: t, lambda t: t ** 2]
+    dd = dict(may_raise=True)
+    add('tdt.basis_decomposition', 0, has('x'), lambda s: tdt.basis_decomposition(s.env['x'], basis(s)), **dd)
+    add('tdt.coordinate_major', 0, has('x'), lambda s: tdt.coordinate_major(s.env['x'], phi), **dd)
+    add('tdt.function_major', 0, has('x'), lambda s: tdt.function_major(s.env['x'], phi[1:]), **dd)
+    add('tdt.hocur', 0, has('x'), lambda s: tdt.hocur(s.env['x'], basis(s), ranks=s.env['x'].shape[1], progress=False), **dd)
+    add('reg.mandy_cm', 0, has('x', 'y'), lambda s: reg.mandy_cm(s.env['x'], s.env['y'], phi, threshold=1e-10), **dd)
+    add('reg.mandy_fm', 0, has('x', 'y'), lambda s: reg.mandy_fm(s.env['x'], s.env['y'], phi[1:], threshold=1e-10), **dd)
+    add('reg.mandy_kb', 0, has('x', 'y'), lambda s: reg.mandy_kb(s.env['x'], s.env['y'], basis(s)), **dd)
+    add('reg.arr', 1, lambda s, i: 'x' in s.env and 'arr-guess' in s.tags[i],
+        lambda s, g: reg.arr(s.env['x'], s.env['y'], basis(s), g, repeats=2, rcond=1e-10, progress=False), **dd)
+    add('tedmd.amuset_hosvd', 0, has('x', 'xi'), lambda s: tedmd.amuset_hosvd(s.env['x'], s.env['xi'], s.env['yi'], basis(s), threshold=1e-10), **dd)
+    add('tedmd.amuset_hosvd(list,st_tf)', 0, has('x', 'xi'),
+        lambda s: tedmd.amuset_hosvd(s.env['x'], [s.env['xi'], s.env['xi2']], [s.env['yi'], s.env['yi2']], basis(s), threshold=1e-10, st_tf=True),
+        base='tedmd.amuset_hosvd', **dd)
+    add('tedmd.amuset_hocur(list)', 0, has('x', 'xi'),
+        lambda s: tedmd.amuset_hocur(s.env['x'], [s.env['xi'], s.env['xi2']], [s.env['yi'], s.env['yi2']], basis(s), multiplier=3),
+        base='tedmd.amuset_hocur', **dd)
+    add('tgedmd.amuset_hosvd', 0, has('x', 'sigma'),
+        lambda s: tgedmd.amuset_hosvd(s.env['x'], basis(s), s.env['sigma'], b=s.env['y'], threshold=1e-10, return_option='eigenvectors'), **dd)
+    add('ulam.ulam_2d', 0, has('transitions'), lambda s: ulam.ulam_2d(s.env['transitions'], [2, 3], 2), **dd)
+    add('slim.slim_mme', 0, has('transitions'), lambda s: slim.slim_mme([2, 2, 2], [[[0, 1, 1.0]], [], [[1, 0, 2.0]]], [[[0, 1, 1, 0, 0.5]], [], [[1, 0, 0, 1, 3.0]]], threshold=1e-12), **dd)
+    add('tdmd.tdmd_exact', 2, lambda s, i, j: 'snap-x' in s.tags[i] and 'snap-y' in s.tags[j], lambda s, x, y: tdmd.tdmd_exact(x, y, threshold=1e-10), **dd)
+    add('tdmd.tdmd_standard', 2, lambda s, i, j: 'snap-x' in s.tags[i] and 'snap-y' in s.tags[j], lambda s, x, y: tdmd.tdmd_standard(x, y, threshold=1e-10), **dd)
+    for nm, f in (('lie', ode.lie_splitting), ('strang', ode.strang_splitting), ('yoshida', ode.yoshida_splitting), ('kahan_li', ode.kahan_li_splitting)):
+        add('ode.%s_splitting' % nm, 1, lambda s, i: 'S' in s.env and 'chain-state' in s.tags[i],
+            (lambda ff: lambda s, x: ff(s.env['S'], s.env['L'], s.env['I'], s.env['M'], x, 0.1, 2, threshold=0, max_rank=50, normalize=0))(f), **dd)
+        add('ode.%s_splitting(list)' % nm, 1, lambda s, i: 'S' in s.env and 'chain-state' in s.tags[i],
+            (lambda ff: lambda s, x: ff([s.env['S']] * 3, [s.env['L']] * 3, [s.env['I']] * 3, [s.env['M']] * 3, x, 0.1, 1, threshold=0, max_rank=50, normalize=2))(f),
+            base='ode.%s_splitting' % nm, **dd)
+
+    def qsample(s, x):
+        from vt.props.c20 import _qc
+        return _qc().sampling(x, [0, 2], 4)
+    add('quantum.sampling', 1, lambda s, i: 'qstate' in s.tags[i], qsample, **dd)
     return ops
 
 
@@ -212,11 +261,26 @@ def pool_builder(spec):
                 G = G - np.diag(G.sum(axis=0))
                 objs.append(TT(G.reshape(o['rows'] + o['rows'])))
                 tags.append({'gen'})
+            elif o.get('kind') == 'snapshots':
+                X = rng.standard_normal((4, 5))
+                objs.append(TT(X[:, :-1].reshape([2, 2, 4, 1, 1, 1]))); tags.append({'snap-x'})
+                objs.append(TT(X[:, 1:].reshape([2, 2, 4, 1, 1, 1]))); tags.append({'snap-y'})
+            elif o.get('kind') == 'qstate':
+                t = _tt(rng, [2, 2, 2], [1, 1, 1], [1, 2, 2, 1], True)
+                t.ortho_right(); t = (1.0 / t.norm()) * t
+                objs.append(t); tags.append({'qstate'})
             else:
                 objs.append(_tt(rng, o['rows'], o.get('cols', [1] * len(o['rows'])), o['ranks'], o.get('c', False),
                                 o.get('fam', 'gauss')))
-                tags.append(set())
-        return System(objs, tags)
+                tags.append(set(o.get('tags', [])))
+        env = {}
+        if spec.get('env') == 'data':
+            env = {'x': rng.uniform(-1, 1, (2, 6)), 'y': rng.standard_normal((2, 6)), 'xi': np.arange(0, 4), 'yi': np.arange(1, 5),
+                   'xi2': np.arange(1, 5), 'yi2': np.arange(2, 6), 'sigma': rng.standard_normal((2, 3, 6)),
+                   'transitions': np.array([[1, 1, 2, 2, 1], [1, 3, 2, 1, 1], [2, 1, 2, 2, 1], [2, 3, 1, 1, 3]])}
+        elif spec.get('env') == 'chain':
+            a = rng.standard_normal((2, 2)); env = {'S': a - a.T, 'L': rng.standard_normal((2, 2, 2)), 'I': np.eye(2), 'M': rng.standard_normal((2, 2, 2))}
+        return System(objs, tags, env)
     return build
 
 
@@ -236,6 +300,10 @@ POOLS_SPEC = [
                                  {'rows': [2, 2, 2], 'ranks': [1, 1, 1, 1]}]},
     {'name': 'solver-complex', 'objs': [{'kind': 'hpd', 'rows': [2, 2], 'c': True}, {'rows': [2, 2], 'ranks': [1, 2, 1], 'c': True},
                                         {'rows': [2, 2], 'ranks': [1, 1, 1]}]},
+    {'name': 'data-driven', 'env': 'data', 'objs': [{'rows': [3, 2], 'ranks': [1, 2, 1], 'tags': ['arr-guess']}, {'rows': [3, 2], 'ranks': [1, 1, 1], 'tags': ['arr-guess']}]},
+    {'name': 'snapshots', 'objs': [{'kind': 'snapshots'}]},
+    {'name': 'chain', 'env': 'chain', 'objs': [{'rows': [2, 2, 2], 'ranks': [1, 1, 1, 1], 'tags': ['chain-state']}, {'rows': [2, 2, 2], 'ranks': [1, 2, 2, 1], 'tags': ['chain-state']}]},
+    {'name': 'quantum', 'objs': [{'kind': 'qstate'}, {'rows': [2, 2, 2], 'ranks': [1, 1, 1, 1], 'c': True}]},
     {'name': 'markov', 'objs': [{'kind': 'gen', 'rows': [2, 2]}, {'rows': [2, 2], 'ranks': [1, 2, 1], 'fam': 'nonneg'},
                                 {'rows': [2, 2], 'ranks': [1, 1, 1], 'fam': 'nonneg'}]},
 ]
